@@ -7,14 +7,15 @@ semantics and the two destructors that remove handles: `ModuleContext::drop ⇒ 
 `TimerSlotEntryHandle::drop`.  `mkEdges d` builds that graph from the description `d` of a simulation
 at its stopping point; `dropSim d` drops its two roots (the `Runtime`/`Sim` and the `Profiler`).
 
-The theorems about the machine hold for every graph; the theorems about `mkEdges d` hold for every
+The theorems about the machine hold for every graph; the theorems about `mkEdges d` hold for EVERY
 description `d` of the repaired code (`keepChan = false`: a queued `Connection` no longer keeps its
-own channel alive).  `strong_edges_ranked` is proved for every such `d`; the two closure conditions that
-mention other edges (`wired d`: every holder is held, every connected gate is registered in a module
-context) are a decidable hypothesis that the driver evaluates on every description it builds.
+own channel alive) — no well-formedness hypothesis: `mkEdges` ignores links between unknown gates and
+gates of unknown owners, and `every_description_is_closed` shows that the resulting heap is closed
+(every holder is held, every connected gate is registered in a module context) whatever `d` is.
 For the code before the repair (`keepChan = true`) the statement is false: `backlog_cycle_witness`.
 -/
-import Desverif.Proofs.OwnGraph
+import Desverif.Proofs.OwnWired
+import Desverif.Proofs.OwnBelow
 namespace C20
 open Own
 
@@ -70,14 +71,47 @@ theorem strong_edges_ranked (d : Desc) (hk : d.keepChan = false) :
     have h2 := hR.2
     simp [hh] at h2
 
+/-- **Every description yields a closed heap** — for every `d` (any indices, any sizes, also the code
+    before the repair): every holder in `mkEdges d` is a root or is itself held, and every connection
+    slot belongs to a gate that a module context of smaller rank than the slot's target holds in its
+    `gates`.  (`wired` is the decidable form of these two conditions; the driver still evaluates it.) -/
+theorem every_description_is_closed (d : Desc) : wired d = true := wired_all d
+
+/-- **Nothing below a gate has a handle-removing destructor** — in every graph `mkEdges d` the nodes
+    `below` (gates, channels, probes, buffer entries, messages, bodies, connections) are closed under
+    strong edges, every connection slot starts and ends there, and freeing such a node — in any
+    sub-heap of `mkEdges d` — is a plain free: `cutOnFree` removes nothing (it is no module context and
+    no timer entry is registered through it).  So the handles `dissolve_paths` releases while it is
+    still running can never start a second `dissolve_paths` or an entry removal. -/
+theorem plain_frees_below_gates (d : Desc) :
+    (∀ e ∈ mkEdges d, below e.src = true → below e.tgt = true) ∧
+    (∀ e ∈ mkEdges d, e.isConn = true → below e.src = true ∧ below e.tgt = true) ∧
+    (∀ (es : List (Edge NId)) (v : NId), (∀ e ∈ es, e ∈ mkEdges d) → below v = true →
+      cutOnFree nidSem es v = some (es, [])) := by
+  have hb := List.all_eq_true.mp (below_mkEdges d)
+  have h1 : ∀ e ∈ mkEdges d, below e.src = true → below e.tgt = true := by
+    intro e he hs
+    have := hb e he
+    simp only [belowOk, Bool.and_eq_true, Bool.or_eq_true, Bool.not_eq_true'] at this
+    rcases this.1 with h | h
+    · rw [hs] at h; cases h
+    · exact h
+  refine ⟨h1, ?_, fun es v hsub hv => cutOnFree_below d es hsub v hv⟩
+  intro e he hc
+  obtain ⟨hg, _⟩ := conn_mkEdges d e he hc
+  have hs : below e.src = true := by
+    cases hsrc : e.src <;> simp [hsrc, nidSem] at hg
+    rfl
+  exact ⟨hs, h1 e he hs⟩
+
 /-- **Everything but the timer bookkeeping is released exactly once** — any module tree, any gate
     wiring (rings included), any channel backlog, any pending / remaining / buffered events, any
     blocked tasks, shut-down modules, messages kept in module state. -/
-theorem all_good_nodes_freed_once (d : Desc) (hk : d.keepChan = false) (hw : wired d = true) :
+theorem all_good_nodes_freed_once (d : Desc) (hk : d.keepChan = false) :
     (dropSim d).err = none ∧
       ∀ v ∈ nodesOf d, good v = true → freedCount (dropSim d) v = 1 := by
   have h := dropRoots_ranked nidSem (mkEdges d) roots (fun v => good v = true) (rank d)
-    (ranked_of_wired d hk hw)
+    (ranked_of_wired d hk (wired_all d))
   refine ⟨h.1, ?_⟩
   intro v hv hg
   refine h.2 v hg ?_
@@ -95,9 +129,9 @@ theorem all_good_nodes_freed_once (d : Desc) (hk : d.keepChan = false) (hw : wir
 /-- **Every user-visible object (module state, processing element, task state, message body, channel
     probe) is
     dropped exactly once and none stays alive.** -/
-theorem all_user_objects_freed_once (d : Desc) (hk : d.keepChan = false) (hw : wired d = true) :
+theorem all_user_objects_freed_once (d : Desc) (hk : d.keepChan = false) :
     (dropSim d).err = none ∧ leaked d = [] := by
-  have h := all_good_nodes_freed_once d hk hw
+  have h := all_good_nodes_freed_once d hk
   refine ⟨h.1, ?_⟩
   unfold leaked
   simp only
@@ -128,7 +162,7 @@ theorem backlog_cycle_witness :
     leaked (backlog true) = [.probe 0 true, .body (.queue 0 true 0)] := by
   decide +kernel
 
-example : leaked (backlog false) = [] ∧ wired (backlog false) = true := by decide +kernel
+example : leaked (backlog false) = [] := by decide +kernel
 
 /-- one module with a task blocked on `sleep` (one pending timer slot), a gate ring m0–m1–m2 -/
 def sleeper : Desc :=
@@ -145,6 +179,6 @@ theorem timer_bookkeeping_residue_witness :
       freedCount (dropSim sleeper) (.taskState 0 0) = 1 ∧ freedCount (dropSim sleeper) (.taskCell 0 0) = 1 := by
   decide +kernel
 
-example : sleeper.keepChan = false ∧ wired sleeper = true ∧ leaked sleeper = [] := by decide +kernel
+example : sleeper.keepChan = false ∧ leaked sleeper = [] := by decide +kernel
 
 end C20
